@@ -653,6 +653,7 @@ func (o *baseObject) _defineOwnProperty(name unistring.String, existingValue Val
 	setterObj, _ := descr.Setter.(*Object)
 
 	var existing *valueProperty
+	var getterFunc, setterFunc *Object
 
 	if existingValue == nil {
 		if !o.extensible {
@@ -706,6 +707,15 @@ func (o *baseObject) _defineOwnProperty(name unistring.String, existingValue Val
 		return descr.Value, true
 	}
 
+	// check the accessor functions before the existing record is touched: a definition that fails
+	// (getter or setter is not callable) must leave the property as it was
+	if descr.Getter != nil {
+		getterFunc = propGetter(o.val, descr.Getter, o.val.runtime)
+	}
+	if descr.Setter != nil {
+		setterFunc = propSetter(o.val, descr.Setter, o.val.runtime)
+	}
+
 	if existing.accessor && (descr.Value != nil || descr.Writable != FLAG_NOT_SET) {
 		// accessor -> data: attributes that are not carried over take their defaults
 		existing.accessor = false
@@ -740,13 +750,13 @@ func (o *baseObject) _defineOwnProperty(name unistring.String, existingValue Val
 	}
 
 	if descr.Getter != nil {
-		existing.getterFunc = propGetter(o.val, descr.Getter, o.val.runtime)
+		existing.getterFunc = getterFunc
 		existing.value = nil
 		existing.accessor = true
 	}
 
 	if descr.Setter != nil {
-		existing.setterFunc = propSetter(o.val, descr.Setter, o.val.runtime)
+		existing.setterFunc = setterFunc
 		existing.value = nil
 		existing.accessor = true
 	}
